@@ -41,4 +41,5 @@ Definition norm_sig (s : sigT) : sigT :=
   mkSig (map (fun p => (norm (fst p), option_map norm_dexpr (snd p))) (s_params s)) (option_map norm (s_rest s)).
 Definition norm_kvs (l : list (string * EvValue.value)) := map (fun kv => (norm (fst kv), snd kv)) l.
 Definition norm_call (c : callT) : callT :=
-  mkCall (c_pos c) (norm_kvs (c_named c)) (c_lsplat c) (option_map norm_kvs (c_msplat c)).
+  mkCall (c_pos c) (norm_kvs (c_named c)) (c_lsplat c) (option_map norm_kvs (c_msplat c))
+         (option_map (fun pk => (fst pk, norm_kvs (snd pk))) (c_asplat c)).
